@@ -544,7 +544,66 @@ def camera_across_subscriptions(ctx: Ctx) -> None:
                               {"kind": "camera-two-subscribers"}, trace=sim.trace(40))
 
 
+def unsubscribe_inside_callback(ctx: Ctx) -> None:
+    """One-shot subscriptions: the unsubscribe function is called from INSIDE the subscription's own callback (as the only subscriber of that
+    type and next to a second one). It must take effect from the next message on and disturb nothing else."""
+    from aioesphomeapi import api_pb2 as pb
+
+    res = ctx.res
+    idx = 0
+    for which in ("connections_free", "le_advertisements", "raw_advertisements"):
+        for second_subscriber in (False, True):
+            for same_chunk in (False, True):
+                idx += 1
+                if not ctx.mine(idx):
+                    continue
+                with Sim() as sim:
+                    cli, dconn = session(sim)
+                    states: list[Any] = []
+                    cli.subscribe_states(states.append)
+                    got: list[Any] = []
+                    other: list[Any] = []
+                    holder: dict[str, Any] = {}
+
+                    def one_shot(*a: Any) -> None:
+                        got.append(a)
+                        holder["unsub"]()
+
+                    if which == "connections_free":
+                        holder["unsub"] = cli.subscribe_bluetooth_connections_free(one_shot)
+                        if second_subscriber:
+                            cli.subscribe_bluetooth_connections_free(lambda *a: other.append(a))
+                        mk = lambda k: pb.BluetoothConnectionsFreeResponse(free=k, limit=9)  # noqa: E731
+                    elif which == "le_advertisements":
+                        holder["unsub"] = cli.subscribe_bluetooth_le_advertisements(one_shot)
+                        if second_subscriber:
+                            cli.subscribe_bluetooth_le_advertisements(lambda *a: other.append(a))
+                        mk = lambda k: pb.BluetoothLEAdvertisementResponse(address=k, name=b"n", rssi=-k)  # noqa: E731
+                    else:
+                        holder["unsub"] = cli.subscribe_bluetooth_le_raw_advertisements(one_shot)
+                        if second_subscriber:
+                            cli.subscribe_bluetooth_le_raw_advertisements(lambda *a: other.append(a))
+                        mk = lambda k: pb.BluetoothLERawAdvertisementsResponse(advertisements=[pb.BluetoothLERawAdvertisement(address=k, rssi=-1, data=b"x")])  # noqa: E731
+                    sim.run_for(0.001)
+                    msgs = [mk(1), pb.SensorStateResponse(key=1, state=1.0), mk(2), pb.SensorStateResponse(key=2, state=2.0), mk(3), pb.SensorStateResponse(key=3, state=3.0)]
+                    send_stream(sim, dconn, msgs, [len(msgs)] if same_chunk else [1] * len(msgs))
+                    sim.run_for(0.01)
+                    conn_state = sim.conns[0].obj.connection_state.name
+                    res.evaluations += 1
+                    res.count("workload/unsubscribe-inside-callback")
+                    res.sig("unsub-inside", which, second_subscriber, same_chunk)
+                    case = {"kind": "unsubscribe-inside-callback", "subscription": which, "second_subscriber": second_subscriber, "same_chunk": same_chunk}
+                    if len(got) != 1:
+                        res.violation("C17/unsubscribe/inside-callback", f"one-shot {which} callback invoked {len(got)}x for 3 messages (it unsubscribes itself in the first)", case, trace=sim.trace(30))
+                    if second_subscriber and len(other) != 3:
+                        res.violation("C17/unsubscribe/inside-callback-disturbed-peer", f"the other {which} subscriber got {len(other)} of 3 messages", case, trace=sim.trace(30))
+                    if [s_.key for s_ in states] != [1, 2, 3] or conn_state != "CONNECTED":
+                        res.violation("C17/unsubscribe/inside-callback-disturbed-others", f"state subscriber got keys {[s_.key for s_ in states]} of [1, 2, 3]; connection {conn_state}",
+                                      case, trace=sim.trace(30))
+
+
 def shard(ctx: Ctx) -> None:
+    unsubscribe_inside_callback(ctx)
     camera_across_subscriptions(ctx)
     state_streams(ctx)
     camera_interleavings(ctx)
